@@ -44,12 +44,12 @@ type Config struct {
 }
 
 type RunResult struct {
-	Property string           `json:"property"`
-	Tier     string           `json:"tier"`
-	LoadS    float64          `json:"load_s"`
-	Results  []*HarnessResult `json:"results"`
-	Solver   string           `json:"solver"`
-	Errors   []string         `json:"errors"`
+	Property string            `json:"property"`
+	Tier     string            `json:"tier"`
+	LoadS    float64           `json:"load_s"`
+	Results  []*HarnessResult  `json:"results"`
+	Solver   string            `json:"solver"`
+	Errors   []string          `json:"errors"`
 	SrcHash  map[string]string `json:"source_files"`
 }
 
@@ -203,7 +203,7 @@ func main() {
 			fmt.Fprintf(os.Stderr, "   VIOL %s [%s] %s vector=%v @ %s\n", v.Kind, v.Label, v.Msg, v.Vector, v.Where)
 		}
 		if h.Twin != "" {
-			tr := eng.Explore(h.Twin, b, *workers, *solver)
+			tr := eng.Explore(h.Twin, b, *workers, *solver, true)
 			tr.Harness = h.Twin + " (twin)"
 			res.Results = append(res.Results, tr)
 		}
